@@ -133,6 +133,10 @@ class CLIFlow(Engine):
             names = [a.arg for a in fi.node.args.args][1:]
             rec = {'ctor': fi.name}
             rec.update({k: v for k, v in list(zip(names, args)) + list(kwargs.items())})
+            for v in list(args) + list(kwargs.values()):
+                if isinstance(v, Ref) and v.kind == 'list':
+                    rec['%stages'] = tuple(st.get(v.sym).stages)
+                    break
             self.colls.append(rec)
             s2 = st.copy()
             return [(ExtV(MC), st), (self.exc('InvalidMosCollection', s2, node, 'cli:invalid collection', implicit=False), s2)]
@@ -343,7 +347,12 @@ def cli_flow_rules(res, prog: Program, from_file_raises, inspect_ok: bool):
             for k in ('bucket_name', 'prefix', 'suffix'):
                 if k in args and c['ctor'] == 'from_s3' and k in c and not (isinstance(c[k], StrV) and c[k].origin == ('arg', k)):
                     note('FLAG-PLUMB|listing', f'--{k.replace("_", "-")} does not reach MosCollection.from_s3 unchanged  [{name}]')
-            if 'files' in args and not (isinstance(c.get('mos_file_paths', next(iter([v for k, v in c.items() if k not in ("ctor", "allow_incomplete")]), None)), Ref)):
+            touched = [x for x in c.get('%stages', ()) if x in ('sorted', 'reversed', 'slice', 'set', 'filter', 'sort', 'reverse', 'dict.values')
+                       or x.startswith(('sorted', 'reversed', 'slice', 'list(unknown)'))]
+            if 'files' in args and touched:
+                note('FLAG-PLUMB|listing', f'the file arguments reach MosCollection.from_files only after {touched}: not the files as listed '
+                                           f'(messages with equal message IDs are merged in the order given)  [{name}]')
+            if 'files' in args and not (isinstance(c.get('mos_file_paths', next(iter([v for k, v in c.items() if k not in ("ctor", "allow_incomplete", "%stages")]), None)), Ref)):
                 note('FLAG-PLUMB|listing', f'the file arguments do not reach MosCollection.from_files  [{name}]')
         for k in ('bucket_name', 'prefix', 'suffix'):
             s3c = [c for c in fl.colls if c['ctor'] == 'from_s3']
